@@ -51,10 +51,25 @@ func factory(dir string) (base.ClientFactory, error) {
 	return (&scramblesuit.Transport{}).ClientFactory(dir)
 }
 
+// sharedParsed, when non-nil, makes dial parse the bridge arguments once per
+// factory and use the same parsed object for every later Dial (what a caller
+// that keeps a bridge's parsed arguments around does); nil: parse per dial
+// (what obfs4proxy's SOCKS handler does).
+var sharedParsed map[base.ClientFactory]any
+
 func dial(cf base.ClientFactory, args *pt.Args, w *wire.Conn) (net.Conn, error) {
-	pa, err := cf.ParseArgs(args)
-	if err != nil {
-		return nil, fmt.Errorf("ParseArgs: %w", err)
+	var pa any
+	var err error
+	if sharedParsed != nil && sharedParsed[cf] != nil {
+		pa = sharedParsed[cf]
+	} else {
+		pa, err = cf.ParseArgs(args)
+		if err != nil {
+			return nil, fmt.Errorf("ParseArgs: %w", err)
+		}
+		if sharedParsed != nil {
+			sharedParsed[cf] = pa
+		}
 	}
 	return cf.Dial("tcp", "192.0.2.7:443", func(string, string) (net.Conn, error) { return w, nil }, pa)
 }
@@ -830,7 +845,10 @@ func scenarios(cfg *mc.Config, emit func(mc.Scenario)) {
 		depth = 5
 	}
 	for d := 1; d <= depth; d++ {
-		emit(historyScenario(d, seed))
+		emit(historyScenario(d, seed, false))
+		if d >= 2 && (thorough || d <= 3) {
+			emit(historyScenario(d, seed, true))
+		}
 	}
 }
 
@@ -853,8 +871,17 @@ func (b *barrierConn) Write(p []byte) (int, error) {
 
 var histOps = []string{"connect", "connect+issue", "restart", "advance-1h", "advance-7d+1s", "delete-ticket-file", "connect-write-error"}
 
-func historyScenario(depth int, seed int64) mc.Scenario {
-	return mc.Scenario{Name: fmt.Sprintf("histories/depth=%d", depth), Params: map[string]any{"depth": depth, "ops": histOps}, Weight: 200 * depth, Run: func(c *mc.Ctx) {
+func historyScenario(depth int, seed int64, shareArgs bool) mc.Scenario {
+	name := fmt.Sprintf("histories/depth=%d", depth)
+	if shareArgs {
+		name = fmt.Sprintf("histories-one-parsed-args/depth=%d", depth)
+	}
+	return mc.Scenario{Name: name, Params: map[string]any{"depth": depth, "ops": histOps, "parsed_args_reused_across_dials": shareArgs}, Weight: 200 * depth, Run: func(c *mc.Ctx) {
+		sharedParsed = nil
+		if shareArgs {
+			sharedParsed = map[base.ClientFactory]any{}
+		}
+		defer func() { sharedParsed = nil }()
 		dir := freshDir("hist")
 		rnd.Install(rnd.New(seed, "c15-real-hist"))
 		refRnd := rnd.New(seed, "c15-ref-hist")
@@ -870,6 +897,7 @@ func historyScenario(depth int, seed int64) mc.Scenario {
 		var clientHasAt int64
 		nIssued := 0
 		var hist []string
+		stepsDone := 0
 		res := sched.Run(c, sched.Options{NoPreempt: true, NoEarlyTimers: true, Start: start, MaxSteps: 5_000_000}, func() {
 			s := sched.Cur()
 			for step := 0; step < depth; step++ {
@@ -983,10 +1011,14 @@ func historyScenario(depth int, seed int64) mc.Scenario {
 						clientHas = ""
 					}
 				}
+				stepsDone = step + 1
 			}
 		})
 		if len(res.Panics) > 0 {
 			fail(c, "no-panic", "panic/history", "history %v: %s", hist, res.Panics[0])
+		} else if stepsDone < len(hist) && !c.Failed() {
+			// the step never came back: every thread is blocked for good
+			fail(c, "liveness", "history/stuck/"+hist[len(hist)-1], "history %v: the last step never returned (blocked: %+v)", hist, res.Blocked)
 		}
 		c.Observe("history", fmt.Sprint(hist, used))
 	}}
